@@ -3,6 +3,7 @@ from collections.abc import Callable
 
 from pynenc import context
 from pynenc.conf.config_task import ConcurrencyControlType
+from pynenc.exceptions import InvocationStatusError
 from pynenc.invocation.status import InvocationStatus
 
 if TYPE_CHECKING:
@@ -84,13 +85,21 @@ def recover_pending_invocations() -> None:
     app, runner_ctx = get_app_and_runner_ctx()
     invocations_to_reroute: set[InvocationId] = set()
     # Recover PENDING invocations that exceeded timeout
-    for invocation_id in app.orchestrator.get_pending_invocations_for_recovery():
-        invocations_to_reroute.add(invocation_id)
-        app.logger.info(f"Recovering timed-out pending invocation:{invocation_id}")
-        app.orchestrator.set_invocation_status(
-            invocation_id, InvocationStatus.PENDING_RECOVERY, runner_ctx
-        )
-    app.orchestrator.reroute_invocations(invocations_to_reroute, runner_ctx)
+    try:
+        for invocation_id in app.orchestrator.get_pending_invocations_for_recovery():
+            app.logger.info(f"Recovering timed-out pending invocation:{invocation_id}")
+            try:
+                app.orchestrator.set_invocation_status(
+                    invocation_id, InvocationStatus.PENDING_RECOVERY, runner_ctx
+                )
+            except (InvocationStatusError, KeyError) as ex:
+                # The owner moved on after the scan: it is not stuck any more
+                app.logger.info(f"Skipping recovery of invocation:{invocation_id}: {ex}")
+                continue
+            invocations_to_reroute.add(invocation_id)
+    finally:
+        # Whatever happens, re-queue everything already switched to PENDING_RECOVERY
+        app.orchestrator.reroute_invocations(invocations_to_reroute, runner_ctx)
 
 
 @core_tasks_registry.task(
@@ -102,12 +111,20 @@ def recover_running_invocations() -> None:
     app, runner_ctx = get_app_and_runner_ctx()
     invocations_to_reroute: set[InvocationId] = set()
     # Recover RUNNING invocations owned by inactive runners
-    for invocation_id in app.orchestrator.get_running_invocations_for_recovery():
-        invocations_to_reroute.add(invocation_id)
-        app.logger.info(
-            f"Recovering running invocation:{invocation_id} from inactive runner"
-        )
-        app.orchestrator.set_invocation_status(
-            invocation_id, InvocationStatus.RUNNING_RECOVERY, runner_ctx
-        )
-    app.orchestrator.reroute_invocations(invocations_to_reroute, runner_ctx)
+    try:
+        for invocation_id in app.orchestrator.get_running_invocations_for_recovery():
+            app.logger.info(
+                f"Recovering running invocation:{invocation_id} from inactive runner"
+            )
+            try:
+                app.orchestrator.set_invocation_status(
+                    invocation_id, InvocationStatus.RUNNING_RECOVERY, runner_ctx
+                )
+            except (InvocationStatusError, KeyError) as ex:
+                # The invocation finished or changed hands after the scan
+                app.logger.info(f"Skipping recovery of invocation:{invocation_id}: {ex}")
+                continue
+            invocations_to_reroute.add(invocation_id)
+    finally:
+        # Whatever happens, re-queue everything already switched to RUNNING_RECOVERY
+        app.orchestrator.reroute_invocations(invocations_to_reroute, runner_ctx)
